@@ -1,0 +1,27 @@
+//go:build verif
+
+package name
+
+// Machine-checked contracts for this package (comment-only; excluded from normal builds).
+
+//@ property C12
+//@ // ---- the default-name interceptor fills in only empty names: the request's name field is written at most once, only
+//@ // after it was read as the empty string, and with the configured name; then the handler is called exactly once with the
+//@ // same context and request, and its answer is what the caller gets ----
+//@ func replaceEmptyNameField(req, name)
+//@   option only post
+//@   track Set
+//@   track String
+//@   track ValueOfString
+//@   ensures [at-most-once] calls(Set) <= old(calls(Set)) + 1
+//@   ensures [only-empty] calls(Set) > old(calls(Set)) ==> calls(String) > old(calls(String)) && lastcall(String) == ""
+//@   ensures [configured-name] calls(Set) > old(calls(Set)) ==> calls(ValueOfString) == old(calls(ValueOfString)) + 1 && lastarg(ValueOfString, 0) == name
+//@
+//@ callback UnaryHandler: modifies all
+//@ func IfAbsentUnaryInterceptor$1(ctx, req, info, handler) (resp, err)
+//@   requires handler != nil
+//@   track replaceEmptyNameField
+//@   letold n0 := cbcalls()
+//@   ensures [name-first] calls(replaceEmptyNameField) == old(calls(replaceEmptyNameField)) + 1 && lastarg(replaceEmptyNameField, 0) == req && lastarg(replaceEmptyNameField, 1) == name
+//@   ensures [handled-once] cbcalls() == n0 + 1 && cbfn(n0) == handler && cbargIface(n0, 0) == ctx && cbargIface(n0, 1) == req
+//@   ensures [answer] resp == cbresIface(n0, 0) && err == cbresIface(n0, 1)
